@@ -63,7 +63,7 @@ def _(u):
     u.canary("transit.releases-idle-jobs", out["job_done"].at(b, j) == OR(pre["job_done"].at(b, j), AND(pre["finish_times"].at(b, nxt) <= t1, last)))
 
 
-@unit("fjsp.rowlocal.transit", file=F, func="FJSPEnv._transit_to_next_time", props=("C04",))
+@unit("fjsp.rowlocal.transit", file=F, func="FJSPEnv._transit_to_next_time", props=("C04", "C14"))
 def _(u):
     J, M, O = u.dims("J M O")
     env = u.obj(F, "FJSPEnv")
